@@ -474,3 +474,9 @@ CHECKS["C02"]["thorough"]["tests"].append({"test": "TestC02Huge", "checks": 8000
 CHECKS["C02"]["rule"] += (" Plus 'no window limit' configurations: WindowSize at and a little below the largest accepted value "
                           "(2^32-8; MaxInt32 for GSAP) with small buffers, short blocks, small hash tables, uniform texts and "
                           "NoTrailingLiterals parses followed by another Parse.")
+
+CHECKS["C15"]["quick"]["tests"].append({"test": "TestC15Foreign", "checks": 600, "subchecks": 1})
+CHECKS["C15"]["thorough"]["tests"].append({"test": "TestC15Foreign", "checks": 3000, "subchecks": 1})
+CHECKS["C15"]["rule"] += (" Plus two parsers side by side: A is given a caller slice with Reset(data), grows beyond it and is "
+                          "dropped, the caller overwrites its slice; B, fed in between (sizes up to 100 kB), must still show "
+                          "exactly the bytes it was fed.")
